@@ -87,6 +87,26 @@ no_result = type(
 )
 
 
+def _count_references(obj, counts):
+    """Count how often every key is referred to inside ``obj`` (a task of the
+    new task spec and everything nested in it), with multiplicity."""
+    if isinstance(obj, TaskRef):
+        counts[obj.key] += 1
+    elif isinstance(obj, Task):
+        for arg in itertools.chain(obj.args, obj.kwargs.values()):
+            _count_references(arg, counts)
+    elif isinstance(obj, GraphNode):
+        # Alias, DataNode
+        for key in obj.dependencies:
+            counts[key] += 1
+    elif isinstance(obj, dict):
+        for arg in obj.values():
+            _count_references(arg, counts)
+    elif isinstance(obj, (list, tuple, set, frozenset)):
+        for arg in obj:
+            _count_references(arg, counts)
+
+
 def lazify_task(task, start=True):
     """
     Given a task, remove unnecessary calls to ``list`` and ``reify``.
@@ -116,8 +136,16 @@ def lazify_task(task, start=True):
             subgraph, outkey, inkeys, *dependencies = task.args
             # If there is a reify at the output of the subgraph we don't want to act
             final_task = lazify_task(subgraph[outkey], True)
+            # An inner result may only become a one-shot iterator if it is read
+            # once. ``zip(b, b)``, ``map(f, b, b)`` or a self-join refer to the
+            # same inner key several times from a single task: keep its list.
+            refs: defaultdict = defaultdict(int)
+            for v in subgraph.values():
+                _count_references(v, refs)
             subgraph = {
-                k: lazify_task(v, False) for k, v in subgraph.items() if k != outkey
+                k: lazify_task(v, refs[k] > 1)
+                for k, v in subgraph.items()
+                if k != outkey
             }
             subgraph[outkey] = final_task
             return Task(
